@@ -36,7 +36,24 @@ class Bar(typing.Generic[typing.TypeVar("T")]):
     pass
 
 
+class Meta:
+    """Annotated[...] metadata built by a call (positional and keyword arguments may themselves hold annotations)."""
+
+    def __init__(self, *a, **k):
+        self.a, self.k = a, k
+
+    def __repr__(self):
+        def n(x):
+            try:
+                return repr(norm(x))
+            except Exception:  # noqa: BLE001
+                return repr(x)
+
+        return "Meta(" + ", ".join([n(x) for x in self.a] + [f"{k}={n(v)}" for k, v in sorted(self.k.items())]) + ")"
+
+
 NS = {
+    "Meta": Meta,
     "typing": typing, "t": typing, "collections": collections, "datetime": datetime, "re": re, "Literal": typing.Literal,
     "Annotated": typing.Annotated, "Callable": typing.Callable, "Optional": typing.Optional, "Union": typing.Union,
     "Pattern": typing.Pattern, "Foo": Foo, "Bar": Bar, "Any": typing.Any, "Sequence": typing.Sequence, "Mapping": typing.Mapping,
@@ -64,7 +81,7 @@ def gen(rng, depth, in_union=False):
     if r < 0.30:
         return gen(rng, depth - 1, True)
     k = rng.choice(["list", "dict", "set", "tuplevar", "tuplefix", "typing.List", "typing.Dict", "Optional", "Union", "Literal",
-                    "Callable", "Callable...", "Annotated", "type", "Mapping", "Sequence", "Pattern", "Bar", "frozenset",
+                    "Callable", "Callable...", "Annotated", "AnnotatedCall", "type", "Mapping", "Sequence", "Pattern", "Bar", "frozenset",
                     "collections.abc.Mapping", "paren"])
     g = lambda: gen(rng, depth - 1)  # noqa: E731
     if k == "list":
@@ -96,6 +113,9 @@ def gen(rng, depth, in_union=False):
         return f"typing.Callable[..., {g()}]"
     if k == "Annotated":
         return f"Annotated[{g()}, {rng.choice(['1', chr(34) + 'meta|x' + chr(34), chr(39) + 'list[int]' + chr(39)])}]"
+    if k == "AnnotatedCall":
+        # metadata built by a call whose positional AND keyword arguments hold annotations
+        return f"Annotated[{g()}, Meta({g()}, alt={g()}{', of=' + g() if rng.random() < 0.4 else ''})]"
     if k == "type":
         return f"type[{rng.choice(['Foo', 'int', 'Foo | int'])}]"
     if k == "Mapping":
@@ -111,7 +131,7 @@ def gen(rng, depth, in_union=False):
     return f"({g()})"
 
 
-NON_ANNOTATIONS = ["a + b", "f(x, y=2)", "[x for x in y]", "a.b.c(d)[e]", "x if y else z", "lambda q: q", "1 + 2 * 3", "not a", "a < b",
+NON_ANNOTATIONS = ["a + b", "f(x, y=2)", "f(x, default=a | b)", "Meta(of=dict[str, int])", "g(*a, k=list[int | None], **kw)", "[x for x in y]", "a.b.c(d)[e]", "x if y else z", "lambda q: q", "1 + 2 * 3", "not a", "a < b",
                    "{1: 2}", "a + b | c", "f(a | b)", "x[1:2]", "(a, b)", "a and b", "-x", "a @ b", "f'{x}'", "a | b + c", "{*a, *b}"]
 
 
